@@ -42,6 +42,8 @@ fn("FuncCHARFROMSTR", link=["tempresult.c", "bpemu.c", "nonzstring.c"], unwind=1
 for e in ("FuncSUBSTR", "FuncSUBSTR_safe"):
     GROUPS.append(G("fn_" + e, FUNCS, "h_" + e, enforce=[], link=["tempresult.c", "bpemu.c", "nonzstring.c"], stubs=STUBS, unwind=14, timeout=600, dfcc=False, drop_unused=True,
                     functions=["FuncSUBSTR"], object_bits=12, bounded="source strings of at most 12 characters; start and count over the full 64-bit range"))
+GROUPS.append(G("fn_FuncSTRSTR", FUNCS, "h_FuncSTRSTR", enforce=[], link=["tempresult.c", "bpemu.c", "nonzstring.c"], stubs=STUBS, unwind=10, timeout=600, dfcc=False, drop_unused=True,
+                functions=["FuncSTRSTR", "as_nonz_dynstr_find"], object_bits=12, bounded="text of at most 6 and pattern of at most 3 characters"))
 fn("FuncBITPOS", replace=["SingleBit"])
 GROUPS.append(G("pars_SingleBit", "harness/C08/asmpars_kernels.c", "h_SingleBit", enforce=["SingleBit"],
                 link=["bpemu.c"], stubs=STUBS, unwind=66, timeout=300))
